@@ -1337,7 +1337,14 @@ func (rn *runner) unmarshalCase(t *Target, name string, enc []byte, applied []st
 	desc := map[string]interface{}{"type": t.where(name), "encoding": trunc(hx(enc), 600), "variant": strings.Join(applied, "+")}
 	Journal(fmt.Sprintf("%s unmarshal %s %s", rn.prop, t.where(name), hx(enc)))
 	want := dynamicpb.NewMessage(md)
-	refErr := proto.UnmarshalOptions{Resolver: t.extTypes()}.Unmarshal(enc, want)
+	var refErr error
+	if p := safeCall(func() { refErr = proto.UnmarshalOptions{Resolver: t.extTypes()}.Unmarshal(enc, want) }); p != "" {
+		// the REFERENCE runtime itself panicked on this input (protobuf-go v1.36.4 does on a map entry whose key field
+		// comes with a foreign wire type: "cannot convert nil to map key"): no reference verdict — the generated code is
+		// still required not to panic, checked below, but nothing is compared
+		refErr = fmt.Errorf("reference runtime panicked: %s", p)
+		Extra("reference-runtime-panicked", 1)
+	}
 	refPartialErr := refErr
 	if refErr != nil && strings.Contains(refErr.Error(), "required field") {
 		refErr = nil // decoded, only uninitialised
